@@ -2,7 +2,7 @@
 from vlib import loopygen
 
 ID = "C02"
-COMPONENTS = ["loopyord"]
+COMPONENTS = ["loopyord", "s_srvord"]
 T4 = ["Loopy"]
 PROOF_MODULES = ["GrpcProofs.Properties.C02"]
 THEOREMS = ["GrpcProofs.C02." + t for t in (
@@ -26,18 +26,23 @@ LEVEL_NOTE = ("Trusted: Lean kernel; the hand model (tied by the differential ru
               "longer judged (ids never reused, nothing written after the client's END_STREAM item, trailers requested once, no "
               "cleanupStream{rst:true} for a stream that has already ended on the wire, earlyAbortStream only for unregistered ids). loopy itself "
               "does NOT guard against a late cleanupStream{rst:true}: it writes RST_STREAM for a stream that is no longer established "
-              "(cleanupStreamHandler), see final report.")
-GAP = ("http2Client.write / http2Server.write / finishStream / closeStream producing the items (the environment obligations above are theirs and are "
-       "not tied here: no T2 run over net.Pipe in this revision); mem.BufferSlice reader internals are exercised (multi-buffer payloads, empty "
-       "buffers, pooled buffers) but not modelled beyond lengths")
+              "(cleanupStreamHandler), and the real http2Server DOES break that obligation: known finding F19 (RST_STREAM(CANCEL) after trailers when "
+              "a handler returns as its deadline timer fires), found and re-found on every run by the T2 component s_srvord; "
+              "known_findings/C02-F19-suggested-fix.patch makes it disappear and keeps internal/transport's tests green.")
+GAP = ("server side: tied by the T2 component s_srvord (a real http2Server over net.Pipe under synctest: ServerStream.Write / WriteStatus, peer "
+       "WINDOW_UPDATE / SETTINGS / RST_STREAM / DATA, deadline timers), judged by the same C02 automaton on the wire (no model answer there: Go's "
+       "scheduler orders the transport's goroutines); client side (http2Client.write's END_STREAM discipline) is NOT tied by a T2 run in this "
+       "revision; mem.BufferSlice reader internals are exercised (multi-buffer payloads, empty buffers, pooled buffers) but not modelled beyond lengths")
 ASSUMPTIONS = ["stream ids are never registered while still established", "FNV-1a 32-bit content hash identifies a byte range of the generated stream",
                "the environment obligations listed in LEVEL_NOTE hold for http2Client/http2Server (streams where they do not are skipped)"]
-RULE = ("same generator as C01 (6 profiles + hand-written corner cases; ~35% undisciplined histories in which streams turn `wild`); payloads split "
-        "over 0-5 mem.Buffers; a case is non-trivial when the real writer emitted DATA and at least one stream had to wait for stream quota")
+RULE = ("T1: same generator as C01 (6 profiles + hand-written corner cases; ~35% undisciplined histories in which streams turn `wild`); payloads split "
+        "over 0-5 mem.Buffers. T2 (s_srvord): ~60 (quick) random scripts of peer frames and handler calls against a real http2Server, incl. small/zero "
+        "peer windows, trailers behind starved data, peer resets, deadlines with handlers that answer DeadlineExceeded; a case is non-trivial when the real writer emitted DATA and at least one stream had to wait for stream quota")
 
 
 def gen(rng, tier):
-    return loopygen.gen_cases(rng, tier, "loopyord")
+    yield from loopygen.gen_cases(rng, tier, "loopyord")
+    yield from loopygen.gen_srv_cases(rng, tier)
 
 
 nontrivial = loopygen.nontrivial
